@@ -1,8 +1,9 @@
-import json,sys
+import json,sys,os
+V=os.environ.get('KVC_VERIF','/verif')
 import os
-p='/verif/out/%s.partial-evidence.json'%sys.argv[1]
-q='/verif/evidence/%s.json'%sys.argv[1]
-d=json.load(open(p if os.path.exists(p) and os.path.getmtime(p)>os.path.getmtime(q) else q))
+p=V+'/out/%s.partial-evidence.json'%sys.argv[1]
+q=V+'/evidence/%s.json'%sys.argv[1]
+d=json.load(open(p if os.path.exists(p) and (not os.path.exists(q) or os.path.getmtime(p)>os.path.getmtime(q)) else q))
 c=d['coverage']
 for e in (c.get('engine_errors') or []): print('ENGINE:',e[:400])
 for o in c['obligation_results']:
